@@ -714,6 +714,7 @@ func ruleNKind(c *engine.Context) *report.Rule {
 	// (node descriptor, expected kind, the mismatching value); its call sites are the sites
 	type ctorRoles struct{ node, exp, found int }
 	ctors := map[*ssa.Function]ctorRoles{}
+	ctorExp := map[*ssa.Function]string{}
 	for _, fn := range evalFuncs(c) {
 		if sinkParam(p, fn) != nil {
 			continue
@@ -749,6 +750,9 @@ func ruleNKind(c *engine.Context) *report.Rule {
 							roles.exp = prmIdx(stv.Val)
 						case nodeIdx:
 							roles.node = prmIdx(stv.Val)
+							if roles.node < 0 && fn.Signature.Recv() != nil && derivesFromReceiver(stv.Val, fn) {
+								roles.node = -2 // a method of the node: its own descriptor
+							}
 						case foundIdx:
 							// phi(const, reflect.TypeOf(param).String()) under param != nil
 							for i, pp := range fn.Params {
@@ -762,8 +766,25 @@ func ruleNKind(c *engine.Context) *report.Rule {
 						}
 					}
 				}
-				if roles.node < 0 || roles.exp < 0 || roles.found < 0 {
+				if (roles.node < 0 && roles.node != -2) || roles.found < 0 {
 					good = false
+				}
+				// the expected kind is a parameter, or a constant of the helper (a per-node-type helper)
+				if roles.exp < 0 {
+					roles.exp = -2
+					for _, ref := range *al.Referrers() {
+						if fa, ok := ref.(*ssa.FieldAddr); ok && fa.Field == expIdx {
+							for _, r2 := range *fa.Referrers() {
+								if stv, ok := r2.(*ssa.Store); ok {
+									if _, isC := stv.Val.(*ssa.Const); !isC {
+										good = false
+									} else {
+										ctorExp[fn] = stv.Val.(*ssa.Const).Value.ExactString()
+									}
+								}
+							}
+						}
+					}
 				}
 				if good {
 					ctors[fn] = roles
@@ -802,7 +823,9 @@ func ruleNKind(c *engine.Context) *report.Rule {
 				case l:
 					ks.nav = "list"
 				}
-				if cst, ok := call.Call.Args[roles.exp].(*ssa.Const); ok && cst.Value != nil {
+				if roles.exp == -2 {
+					ks.expected = ctorExp[call.Call.StaticCallee()]
+				} else if cst, ok := call.Call.Args[roles.exp].(*ssa.Const); ok && cst.Value != nil {
 					ks.expected = cst.Value.ExactString()
 				} else {
 					ks.why = append(ks.why, "expected kind is not a constant")
@@ -811,7 +834,11 @@ func ruleNKind(c *engine.Context) *report.Rule {
 				if !ks.foundOK {
 					ks.why = append(ks.why, "the found type is computed from a value other than the one whose type test failed")
 				}
-				ks.nodeOK = derivesFromReceiver(call.Call.Args[roles.node], fn)
+				if roles.node == -2 {
+					ks.nodeOK = len(fn.Params) > 0 && call.Call.Args[0] == ssa.Value(fn.Params[0])
+				} else {
+					ks.nodeOK = derivesFromReceiver(call.Call.Args[roles.node], fn)
+				}
 				if !ks.nodeOK {
 					ks.why = append(ks.why, "the error does not reference the raising node's own descriptor")
 				}
